@@ -499,7 +499,7 @@ func execute(c *Ctx, cases []Case, st *runState, confirmTimeouts bool, on func(c
 			batch = append(batch, cases[i])
 		}
 		res := RunCases(cfg, batch)
-		// a timeout must reproduce with the machine less crowded (4 children) before it counts
+		// a timeout must reproduce with only 2 children running before it counts (the machine may be shared)
 		var again []int
 		for i := range batch {
 			if res[i].Status == "timeout" || res[i].Ms > watchdog.Milliseconds() {
@@ -511,9 +511,16 @@ func execute(c *Ctx, cases []Case, st *runState, confirmTimeouts bool, on func(c
 			for k, i := range again {
 				cs2[k] = batch[i]
 			}
-			r2 := RunCases(runCfg{Workers: min(4, c.Work), Timeout: watchdog, ASLimit: asLimit}, cs2)
+			if len(cs2) > 24 { // each costs up to 10 s on 2 children
+				cs2 = cs2[:24]
+			}
+			r2 := RunCases(runCfg{Workers: min(2, c.Work), Timeout: watchdog, ASLimit: asLimit}, cs2)
 			for k, i := range again {
-				res[i] = r2[k]
+				if k < len(r2) {
+					res[i] = r2[k]
+				} else {
+					res[i] = Res{Status: "err", Detail: "timeout under load, not re-run (cap)"}
+				}
 			}
 		}
 		if os.Getenv("PARSERS_VERBOSE") != "" {
